@@ -231,8 +231,9 @@ def r_rpgap(db, rep):
                 if cpos is not None and cfg.path_exists(cpos, [cpos], avoid=advs):
                     rep.viol("%s#gap-loop-stuck" % f.qn, f.nloc(loop),
                              "the compaction loop in %s has a path through its body that does not advance the cursor: it would not terminate" % f.qn, f.qn)
-    if readers < 5:
-        raise AnalysisBroken("expected >=5 compaction loops following gap pointers, found %d" % readers)
+    # five on the pinned tree; a kind that factors its gap skipping into a helper is not seen here, so the anchor is "most of them"
+    if readers < 3:
+        raise AnalysisBroken("expected >=3 compaction loops following gap pointers, found %d" % readers)
 
 
 BACKPTR = {"table": "kpos", "pairs": "hpos"}      # container array field -> Trecord field that records the slot
